@@ -51,11 +51,20 @@ def loop (r : Rule) (pw : K → K) (x : Nat → K) : List (Nat × Nat × K) → 
   | [], y => y
   | (s, e, I) :: ws, y => loop r pw x ws (upd r pw x y s e I)
 
-/-- the loop as the driver runs it: the array is materialised after every window
-(`TWV.Lemmas.Match.loopA_get` shows it computes `loop`) -/
+/-- `upd` with the shift factor `y_hat` handed in (so that the driver computes it once per window) -/
+def updWith (h : K) (pw : K → K) (x y : Nat → K) (s e : Nat) : Nat → K :=
+  fun j => if s ≤ j ∧ j ≤ e then win y s (j - s) + h * weight pw (e - s) (win x s) (j - s) else y j
+
+theorem updWith_eq (r : Rule) (pw : K → K) (x y : Nat → K) (s e : Nat) (I : K) :
+    updWith (yhat r pw (e - s) (win x s) (win y s) I) pw x y s e = upd r pw x y s e I := rfl
+
+/-- the loop as the driver runs it: the array is materialised after every window and `y_hat` is computed
+once per window (`TWV.loopA_get` / `C01.loopA_eq_loop` show it computes `loop`) -/
 def loopA (r : Rule) (pw : K → K) (x : Nat → K) : List (Nat × Nat × K) → Array K → Array K
   | [], y => y
-  | (s, e, I) :: ws, y => loopA r pw x ws (tab y.size (upd r pw x (arrFn y) s e I))
+  | (s, e, I) :: ws, y =>
+    let h := yhat r pw (e - s) (win x s) (win (arrFn y) s) I
+    loopA r pw x ws (tab y.size (updWith h pw x (arrFn y) s e))
 
 /-- `zip(integral_values, F[:-1], F[1:])` -/
 def windows : List K → List Nat → List (Nat × Nat × K)
